@@ -168,6 +168,13 @@ pub fn enumerate(n_max: usize, stride_last: usize) -> Vec<Decl> {
             out.extend(tail.into_iter().enumerate().filter(|(k, _)| k % stride_last == 0).map(|x| x.1));
         }
     }
+    // the order of the variants carries no meaning: every second declaration lists its variants in reverse, so that
+    // children are declared before the masters their paths name
+    for (k, d) in out.iter_mut().enumerate() {
+        if k % 2 == 1 {
+            d.vars.reverse();
+        }
+    }
     out
 }
 
